@@ -147,7 +147,11 @@ func (s *session) peer(step int, k string, t int, glue bool) {
 		}
 	case "viol":
 		p := Payload(t, plen(t))
-		switch s.pick(step, 7) {
+		switch s.pick(step, 9) {
+		case 7:
+			b = BuildFrame(opPong, p, nil) // fragmented Pong
+		case 8:
+			b = BuildFrame(0x80|opPong, Payload(t, 126), nil) // Pong over 125 bytes
 		case 0:
 			b = BuildFrame(0xC0|opText, p, nil) // RSV1
 		case 1:
